@@ -31,6 +31,7 @@ func runRace(e *ev.Env) {
 		g := newRig(e, c, cf)
 		g.realtime = true
 		g.concurrent = true
+		g.inline = true // the workers are the request goroutines; their guard is the stop deadline below
 		dur := time.Duration(e.N(2500, 3000)) * time.Millisecond
 		var stop atomic.Bool
 		var wg sync.WaitGroup
@@ -43,6 +44,9 @@ func runRace(e *ev.Env) {
 				defer wg.Done()
 				for !stop.Load() {
 					q := &rq{Method: "GET", Key: keys[wr.Intn(3)], Status: 200, Size: []int{0, 100, 300, 400, 600}[wr.Intn(5)]}
+					if wr.Chance(1, 40) {
+						q.Size = cf.MaxBytes + 1 // does not fit at all
+					}
 					if cf.Inv && wr.Chance(1, 10) {
 						q.Inv = true
 					}
@@ -84,7 +88,7 @@ func runRace(e *ev.Env) {
 		case <-done:
 		case <-time.After(3 * time.Second):
 			if npanic.Load() == 0 {
-				g.viol("deadlock|without-panic", "workers did not finish within 3 s after the stop signal", nil)
+				g.viol("deadlock|request-never-completes|"+g.hangClass("parallel-burst"), "workers did not finish within 3 s after the stop signal: requests block inside the middleware", nil)
 			}
 			e.Stat("race-requests", nreq.Load())
 			e.Stat("race-cases-ended-by-panic", 1)
@@ -93,6 +97,7 @@ func runRace(e *ev.Env) {
 			}
 			return
 		}
+		g.inline = false // from here on sequential requests, each under the (real-time) guard
 		e.Stat("race-requests", nreq.Load())
 		e.Stat("race-cases-ran-full-duration", 1)
 		e.Nontrivial("race", c.ID, cf.String())
